@@ -107,7 +107,8 @@ def run(ctx):
                                   scratch=sc, workers=2),
         "gl_font": lambda: run_tlc("Globals", _gl_cfg(["FontCacheKeyedByFontOnly"], 3, ("HistoryIndependent",)),
                                    scratch=sc, expect_fail=True, workers=1),
-        "gl_aes": lambda: run_tlc("Globals", _gl_cfg(["PermanentAesPatch"], 3, ("HistoryIndependent",)),
+        "gl_aes": lambda: run_tlc("Globals", _gl_cfg(["PermanentAesPatch", "AesPatchOnlyOnOpenFailure"], 3,
+                                                     ("HistoryIndependent",)),
                                   scratch=sc, expect_fail=True, workers=1),
         "gl_aes_res": lambda: run_tlc("Globals", _gl_cfg(["PermanentAesPatch"], 3, ("ResidueFree",)),
                                       scratch=sc, expect_fail=True, workers=1),
@@ -131,7 +132,8 @@ def run(ctx):
     for n, inv, note in (("ps_nolock", "Residue", "UseLock=FALSE (pinned tree's design): Residue must fail"),
                          ("ps_nofinally", "Residue", "RestoreOnRaise=FALSE: Residue must fail"),
                          ("gl_font", "HistoryIndependent", "FontCacheKeyedByFontOnly: HistoryIndependent must fail"),
-                         ("gl_aes", "HistoryIndependent", "PermanentAesPatch: HistoryIndependent must fail"),
+                         ("gl_aes", "HistoryIndependent", "PermanentAesPatch + AesPatchOnlyOnOpenFailure (pinned "
+                                                          "tree): HistoryIndependent must fail"),
                          ("gl_aes_res", "ResidueFree", "PermanentAesPatch: ResidueFree must fail")):
         ev.tlc("sensitivity " + note, res[n], note="expected violation")
         if res[n].violated != inv:
@@ -430,7 +432,8 @@ def run(ctx):
         if tv.accepted:
             v.ok(len(t["ev"]))
     # as-built model for the rejected ones that lie in the open finding's domain
-    in_dom = [(t, tv) for t, tv in rejected if any(e["a"] == "Extract" and e["d"] == "aesT" for e in t["ev"])]
+    in_dom = [(t, tv) for t, tv in rejected
+              if any(e["a"] == "Extract" and e["d"] in ("aesT", "aesU") for e in t["ev"])]
     asb = {}
     if in_dom:
         a_cfg = "SPECIFICATION TraceSpec\nCONSTRAINT TraceAccept\n" + _gl_cfg(["PermanentAesPatch"], 1).split("\n", 1)[1]
